@@ -71,7 +71,7 @@ def summary (s : St) : List (String × Json) :=
   [("final", snap s), ("stopped", jbool (s.pc = .stopped)),
    ("execs", jarr (s.execLog.reverse.map fun e =>
       jobj [("afterFinal", jbool (!s.hasOutput || decide (s.lastOutput < e.launch))), ("pdws", jbool e.pdws),
-            ("avail", jbool e.avail)])),
+            ("avail", jbool e.avail), ("started", jbool e.started)])),
    ("cause", causeName s.cause), ("pollsFin", jnat s.pollsFin), ("books", jnat s.books)]
 
 /-! composed scripts: subscription of ComponentState.stageIn + poll protocol -/
